@@ -1320,6 +1320,7 @@ enum FAst {
     Neg(Box<FAst>),
     Bin(&'static str, Box<FAst>, Box<FAst>),
     Call1(&'static str, Box<FAst>),
+    CallN(&'static str, Vec<FAst>),
     If(Box<FAst>, Box<FAst>, Box<FAst>),
     Assign(&'static str, &'static str, Box<FAst>),
     Chain(Vec<FAst>),
@@ -1362,7 +1363,13 @@ fn gen_fnum(rng: &mut StdRng, depth: u32) -> FAst {
         },
         0..=7 => FAst::Bin(FARITH.choose(rng).unwrap(), Box::new(gen_fnum(rng, depth - 1)), Box::new(gen_fnum(rng, depth - 1))),
         8 => FAst::Neg(Box::new(gen_fnum(rng, depth - 1))),
-        9..=10 => FAst::Call1(FCALL1.choose(rng).unwrap(), Box::new(gen_fnum(rng, depth - 1))),
+        9 => FAst::Call1(FCALL1.choose(rng).unwrap(), Box::new(gen_fnum(rng, depth - 1))),
+        10 => {
+            // min / max of two or three numbers (keeps the type of the winner), the two-argument math functions
+            let name = *["min", "max", "min", "max", "math::pow", "math::hypot", "math::atan2"].choose(rng).unwrap();
+            let n = if name.starts_with("math") { 2 } else { rng.gen_range(2..4) };
+            FAst::CallN(name, (0..n).map(|_| gen_fnum(rng, depth - 1)).collect())
+        },
         _ => FAst::If(Box::new(gen_fbool(rng, depth - 1)), Box::new(gen_fnum(rng, depth - 1)), Box::new(gen_fnum(rng, depth - 1))),
     }
 }
@@ -1415,6 +1422,17 @@ fn frender(a: &FAst, min: i32, rng: &mut StdRng, out: &mut String) {
             frender(x, 50, rng, out);
             out.push(')');
         },
+        FAst::CallN(n, xs) => {
+            out.push_str(n);
+            out.push('(');
+            for (k, x) in xs.iter().enumerate() {
+                if k > 0 {
+                    out.push_str(", ");
+                }
+                frender(x, 50, rng, out);
+            }
+            out.push(')');
+        },
         FAst::If(c, x, y) => {
             out.push_str("if(");
             frender(c, 50, rng, out);
@@ -1447,6 +1465,9 @@ struct Shadow<'a> {
     floats: &'a mut Vec<f64>,
     pairs: &'a mut Vec<(f64, f64)>,
     mutable: bool,
+    /// the program ran into something the documentation leaves open (NaN or a numeric tie between an Int and a Float in
+    /// min / max): such programs are not recorded, because the context after them is not determined
+    undoc: bool,
 }
 impl Shadow<'_> {
     fn num(&mut self, v: Sv) -> Option<f64> {
@@ -1557,6 +1578,48 @@ impl Shadow<'_> {
                     _ => f.cbrt(),
                 })
             },
+            FAst::CallN(n, xs) => {
+                let mut vs = Vec::new();
+                for x in xs {
+                    vs.push(self.eval(x)?);
+                }
+                if n.starts_with("math") {
+                    let (x, y) = (self.num(vs[0])?, self.num(vs[1])?);
+                    self.pairs.push((x, y));
+                    return self.float(match *n {
+                        "math::pow" => x.powf(y),
+                        "math::hypot" => x.hypot(y),
+                        _ => x.atan2(y),
+                    });
+                }
+                // min / max: the best integer, the best float, then the two against each other after conversion; the
+                // documentation leaves NaN open - the specification goes on with its placeholder quiet NaN
+                let want_min = *n == "min";
+                let (mut bi, mut bf): (Option<i64>, Option<f64>) = (None, None);
+                for v in &vs {
+                    match *v {
+                        Sv::I(i) => bi = Some(match bi { Some(b) if (want_min && b <= i) || (!want_min && b >= i) => b, _ => i }),
+                        Sv::F(f) if f.is_nan() => {
+                            self.undoc = true;
+                            return self.float(f64::from_bits(0x7ff8_0000_0000_0000));
+                        },
+                        Sv::F(f) => bf = Some(match bf { Some(b) if (want_min && b <= f) || (!want_min && b >= f) => b, _ => f }),
+                        _ => return None,
+                    }
+                }
+                match (bi, bf) {
+                    (Some(i), None) => Some(Sv::I(i)),
+                    (None, Some(f)) => self.float(f),
+                    (Some(i), Some(f)) => {
+                        let c = self.num(Sv::I(i))?;
+                        if c == f {
+                            self.undoc = true;
+                        }
+                        if (want_min && c < f) || (!want_min && c > f) { Some(Sv::I(i)) } else { self.float(f) }
+                    },
+                    (None, None) => None,
+                }
+            },
             FAst::If(c, x, y) => {
                 // `if` is a function: all three arguments are evaluated first
                 let (c, x, y) = (self.eval(c)?, self.eval(x)?, self.eval(y)?);
@@ -1639,23 +1702,27 @@ pub fn gen_floatprogs(rec: &mut Recorder, rng: &mut StdRng, n: usize) {
             rec.emit(json!({"ev": "ctx", "slot": 0, "ctx": ctx_json(&vars, &[], false)}));
             fresh = false;
         }
-        let depth = rng.gen_range(1..5);
-        let ast = if rng.gen_range(0..3) == 0 {
-            FAst::Chain((0..rng.gen_range(2..4)).map(|_| gen_fstmt(rng, depth.min(3))).collect())
-        } else {
-            gen_fstmt(rng, depth)
-        };
-        let mut src = String::new();
-        frender(&ast, 0, rng, &mut src);
-        let mode = if rng.gen_range(0..6) == 0 { Mode::Imm } else { Mode::Mut };
         // the shadow walk: which primitive facts the specification will need (see the head of this section)
-        {
-            let mut sh = Shadow { env: env.clone(), floats: &mut rec.floats, pairs: &mut rec.pairs, mutable: mode == Mode::Mut };
+        let (src, mode) = loop {
+            let depth = rng.gen_range(1..5);
+            let ast = if rng.gen_range(0..3) == 0 {
+                FAst::Chain((0..rng.gen_range(2..4)).map(|_| gen_fstmt(rng, depth.min(3))).collect())
+            } else {
+                gen_fstmt(rng, depth)
+            };
+            let mode = if rng.gen_range(0..6) == 0 { Mode::Imm } else { Mode::Mut };
+            let mut sh = Shadow { env: env.clone(), floats: &mut rec.floats, pairs: &mut rec.pairs, mutable: mode == Mode::Mut, undoc: false };
             let _ = sh.eval(&ast);
+            if sh.undoc {
+                continue;
+            }
             if mode == Mode::Mut {
                 env = sh.env;
             }
-        }
+            let mut src = String::new();
+            frender(&ast, 0, rng, &mut src);
+            break (src, mode);
+        };
         let kind = match rng.gen_range(0..10) {
             0 => Kind::Float,
             1 => Kind::Number,
